@@ -101,10 +101,11 @@ def ruleOccs (origin : Origin) (kind : Kind) (rules : List (List Sel × List Dec
   rules.flatMap fun r => (r.1.filter (·.ok)).flatMap fun s =>
     r.2.map fun d => { origin := origin, imp := d.imp, kind := kind, spec := s.spec, val := d.val }
 
-/-- All applicable declarations. Order of appearance only matters between occurrences that tie on
-    (origin/importance, style attribute, specificity) — see `Props.C03.winner_order_irrelevant` —
-    so only these relative orders carry meaning: hints before every author sheet, author sheets in
-    document order, statements in source order. -/
+/-- All applicable declarations. Order of appearance only decides between occurrences that tie on
+    (origin/importance, style attribute, specificity) — `winner` takes the last of the maximal ones,
+    see `Props.C03.spec_winner_is_last_max` — so only these relative orders carry meaning: hints
+    before every author sheet, author sheets in document order, statements in source order; the
+    place of the style attribute, of the UA sheet and of the user sheets in the list is immaterial. -/
 def occs (doc : Doc) : List Occ :=
   doc.styleAttr.map (fun d => { origin := .author, imp := d.imp, kind := .styleAttr, spec := (0, 0, 0), val := d.val }) ++
   (if doc.hints then
